@@ -541,3 +541,31 @@ Example c03_nonvacuous_nearby :
   nearby_site Debug 524288 [524288; 524289; 520192; 528384; 528385; 524000; 0; 524290] = Ret (6, Some 3) /\
   nearby_site Release 4096 [4096; 4097] = Ret (0, None).
 Proof. split; vm_compute; reflexivity. Qed.
+
+(* ---- process_minidump_with_options as a whole (MinidumpInfo::new, then the thread loop): "returns a result or an error without
+   panicking" — an error exactly when the thread list (first) or the system info cannot be read, else a state whose call stacks
+   satisfy [thread_post] (frame bound per thread) with requesting_thread in bounds *)
+Theorem c03_process_minidump_total : forall p cpu a os module_at max_module_addr cfi_walk instr_valid tl si pi,
+  C05.Proofs.arch_ok a -> input_ok a pi -> cfi_contract a cfi_walk ->
+  exists r, process_minidump p cpu a os module_at max_module_addr cfi_walk instr_valid tl si pi = Ret r /\
+    match r with
+    | ProcessErr e => (tl = false /\ e = MissingThreadList) \/ (tl = true /\ si = false /\ e = MissingSystemInfo)
+    | ProcessOk outs req => tl = true /\ si = true /\ Forall2 (thread_post pi) (pi_threads pi) outs /\
+                            (forall i, req = Some i -> (i < length outs)%nat)
+    end.
+Proof. exact process_minidump_total. Qed.
+Print Assumptions c03_process_minidump_total.
+
+(* ---- "every optional stream degraded to default on error": over the table of ALL stream reads of MinidumpInfo::new that
+   translate/c03_sites.py extracts on every run (with the ProcessError a failure is turned into, or none), the first failing
+   required read decides — which is the model's two tests — and the readability of no other stream can make processing fail *)
+Theorem c03_info_new_required_streams :
+  (forall ok, C03.SitesTie.first_failure ok Gen.C03Sites.gen_stream_handling =
+              option_map C03.SitesTie.to_gen_error
+                (info_new (ok Gen.C03Sites.GS_MinidumpThreadList) (ok Gen.C03Sites.GS_MinidumpSystemInfo))) /\
+  (forall ok ok', ok Gen.C03Sites.GS_MinidumpThreadList = ok' Gen.C03Sites.GS_MinidumpThreadList ->
+                  ok Gen.C03Sites.GS_MinidumpSystemInfo = ok' Gen.C03Sites.GS_MinidumpSystemInfo ->
+                  C03.SitesTie.first_failure ok Gen.C03Sites.gen_stream_handling =
+                  C03.SitesTie.first_failure ok' Gen.C03Sites.gen_stream_handling).
+Proof. exact (conj C03.SitesTie.info_new_from_source C03.SitesTie.optional_streams_cannot_fail). Qed.
+Print Assumptions c03_info_new_required_streams.
